@@ -1,9 +1,10 @@
 SPECIFICATION Spec
 CONSTANTS
-  MaxUses = 4
-  Vias = {"plain", "jit", "remat", "mapvars", "jit_f", "remat_f", "mapvars_f", "remat_p", "while0", "while1", "while2"}
+  MaxUses = 3
+  Vias = {"plain", "remat_p", "jit"}
   FixedPush = TRUE
   Hist = TRUE
+  Decls <- DeclsLazy
 INVARIANT TypeOK
 INVARIANT Transparent
 INVARIANT Mirrors
